@@ -352,8 +352,26 @@ func checkStreamReaderFullRead(c *core.Ctx, l *core.Ledger) {
 			for _, r := range *ld.Referrers() {
 				switch x := r.(type) {
 				case *ssa.Call:
-					if o := core.CalleeObj(x); o != nil && o.Pkg() != nil && o.Pkg().Path() == "io" && (o.Name() == "ReadFull" || o.Name() == "CopyN" || o.Name() == "ReadAtLeast") {
+					if o := core.CalleeObj(x); o != nil && o.Pkg() != nil && o.Pkg().Path() == "io" && (o.Name() == "CopyN" || core.IsFullRead(x)) {
 						continue
+					}
+					// io.LimitReader(r, n) drained by io.Copy / io.CopyBuffer / io.ReadAll: reads until n bytes or the end
+					if core.IsCallTo(x, "io", "LimitReader") && x.Referrers() != nil {
+						drained := len(*x.Referrers()) > 0
+						for _, r2 := range *x.Referrers() {
+							switch y := r2.(type) {
+							case *ssa.DebugRef:
+							case *ssa.Call:
+								if !(core.IsCallTo(y, "io", "Copy") || core.IsCallTo(y, "io", "CopyBuffer") || core.IsCallTo(y, "io", "ReadAll")) {
+									drained = false
+								}
+							default:
+								drained = false
+							}
+						}
+						if drained {
+							continue
+						}
 					}
 					ok2 = false
 					why = "passed to " + core.Sym(x)
@@ -418,7 +436,7 @@ func errorOrigins(f *ssa.Function) []ssa.Instruction {
 			}
 			full := o.Pkg().Path() + "." + o.Name()
 			sig, _ := o.Type().(*types.Signature)
-			if full == "fmt.Errorf" || full == "errors.New" || (sig != nil && sig.Results().Len() == 1 && concreteErr(sig.Results().At(0).Type())) {
+			if full == "fmt.Errorf" || full == "errors.New" || (sig != nil && sig.Results().Len() == 1 && concreteErr(sig.Results().At(0).Type())) || isErrCtor(x.Call.StaticCallee()) {
 				out = append(out, in)
 				counted[x] = true
 			}
@@ -437,6 +455,8 @@ func errorOrigins(f *ssa.Function) []ssa.Instruction {
 	})
 	return out
 }
+
+func isErrCtor(g *ssa.Function) bool { return core.IsErrCtorFunc(g) }
 
 // failCauses: for each function of the given layer, the kinds of conditions
 // under which it *originates* an error (as opposed to passing one on).
@@ -517,8 +537,20 @@ func failCausesExcept(c *core.Ctx, except map[*ssa.Function]bool, recvs ...strin
 	}
 	sort.Slice(fns, func(i, j int) bool { return fns[i].Pos() < fns[j].Pos() })
 	for _, f := range fns {
+		if isErrCtor(f) {
+			continue
+		}
 		for _, in := range errorOrigins(f) {
 			conds := nestingConds(in.Block())
+			for _, cc := range controlConds(f, in.Block()) {
+				dup := false
+				for _, x := range conds {
+					dup = dup || x == cc
+				}
+				if !dup {
+					conds = append(conds, cc)
+				}
+			}
 			class := "unconditional"
 			allTypeCmp := len(conds) > 0
 			for _, s := range conds {
@@ -531,24 +563,32 @@ func failCausesExcept(c *core.Ctx, except map[*ssa.Function]bool, recvs ...strin
 			first := ""
 			if len(conds) > 0 {
 				first = conds[0]
-			}
-			switch {
-			case len(conds) > 0 && strings.Contains(first, "<c:0)") && !strings.HasPrefix(first, "!"):
-				class = "negative-length"
-			case allTypeCmp:
-				class = "unknown-type"
-			case strings.Contains(first, "c:4294901760"):
-				class = "envelope-version"
-			case strings.Contains(first, ".Type!="):
-				class = "envelope-type"
-			case strings.Contains(first, "ReadInt8") || strings.Contains(first, "readByte") || strings.Contains(first, ".buffer["):
-				class = "byte-domain"
-			case strings.Contains(first, "g:EOF") && !strings.HasPrefix(first, "!"):
-				class = "eof-translation"
-			case isErrNilTest(in.Block()):
-				class = "wrap"
-			case len(conds) > 0:
 				class = "other:" + first
+			}
+			if allTypeCmp {
+				class = "unknown-type"
+			} else if isErrNilTest(in.Block()) {
+				class = "wrap"
+			} else {
+				for _, cd := range conds {
+					k := ""
+					switch {
+					case strings.Contains(cd, "<c:0)") && !strings.HasPrefix(cd, "!"):
+						k = "negative-length"
+					case strings.Contains(cd, "c:4294901760"):
+						k = "envelope-version"
+					case strings.Contains(cd, ".Type!="):
+						k = "envelope-type"
+					case strings.Contains(cd, "ReadInt8") || strings.Contains(cd, "readByte") || strings.Contains(cd, ".buffer["):
+						k = "byte-domain"
+					case strings.Contains(cd, "g:EOF") && !strings.HasPrefix(cd, "!"):
+						k = "eof-translation"
+					}
+					if k != "" {
+						class = k
+						break
+					}
+				}
 			}
 			if os.Getenv("VDEBUG") != "" {
 				fmt.Fprintln(os.Stderr, "origin", core.SSAName(f), c.Rel(in.Pos()), class, conds)
@@ -630,4 +670,57 @@ func checkWriteFailCauses(c *core.Ctx, l *core.Ledger) {
 	if n < 20 {
 		l.Unk("W-FAIL-CAUSES", "scope", "", fmt.Sprintf("only %d functions found in the serializer layer (expected the StreamWriter and Writer methods)", n))
 	}
+}
+
+// controlConds: the conditions of the branches that decide whether block b is
+// reached: If-blocks from which b is reachable through exactly one successor.
+// Unlike nestingConds this sees through short-circuit conditions whose arms
+// merge before b.
+func controlConds(f *ssa.Function, b *ssa.BasicBlock) []string {
+	reach := func(from *ssa.BasicBlock) bool {
+		seen := map[*ssa.BasicBlock]bool{from: true}
+		st := []*ssa.BasicBlock{from}
+		for len(st) > 0 {
+			x := st[len(st)-1]
+			st = st[:len(st)-1]
+			if x == b {
+				return true
+			}
+			for _, sc := range x.Succs {
+				if !seen[sc] {
+					seen[sc] = true
+					st = append(st, sc)
+				}
+			}
+		}
+		return false
+	}
+	var out []string
+	for _, blk := range f.Blocks {
+		if blk == b {
+			continue
+		}
+		ifi, ok := blk.Instrs[len(blk.Instrs)-1].(*ssa.If)
+		if !ok {
+			continue
+		}
+		r0, r1 := reach(blk.Succs[0]), reach(blk.Succs[1])
+		if r0 == r1 {
+			continue
+		}
+		cond, neg := ifi.Cond, r1
+		for {
+			if u, isU := cond.(*ssa.UnOp); isU && u.Op == token.NOT {
+				cond, neg = u.X, !neg
+				continue
+			}
+			break
+		}
+		s := condSym(cond)
+		if neg {
+			s = "!" + s
+		}
+		out = append(out, s)
+	}
+	return out
 }
